@@ -438,6 +438,7 @@ def run_case(case, ctx):
         ctx.reject('dea_constructor_raised', observed=repr(exc), detail=dict(limexp=limexp))
         return
     outs = []
+    capped_seen = False
     for i, s in enumerate(given):
         _hist['dea_called'] = False
         try:
@@ -450,6 +451,15 @@ def run_case(case, ctx):
         r, e = float(r), float(e)
         outs.append((r, e))
         ctx.count('dea_calls_total_asserted')
+        if 'capped' in _hist['branches'] and not capped_seen:
+            capped_seen = True
+            # the table holds limexp elements (rounded up to the next odd number): nothing is dropped for lack of room before
+            # that many terms have been fed
+            ctx.count('first_capping_asserted')
+            if i + 1 < 2 * (limexp // 2) + 1:
+                ctx.reject('dea_table_capped_before_limexp_terms', observed=i + 1, expected=2 * (limexp // 2) + 1,
+                           detail=dict(limexp=limexp, branches=sorted(_hist['branches'])))
+                return
         if finite_in and not (math.isfinite(r) and not math.isnan(e)):
             ctx.reject('dea_nonfinite', observed=[r, e], detail=dict(at_term=i + 1, limexp=limexp))
             return
